@@ -7,6 +7,7 @@
 //! Honours VERIF_SEED (default 0). Exit codes: 0 held / 1 violation / 2 infrastructure problem.
 
 mod build;
+mod c05;
 mod c09;
 mod c17;
 mod probes;
